@@ -49,6 +49,16 @@ class Hist:
         """one more change; returns (g, r, f) specs"""
         r = self.r
         gle = [i for i in self.live if self.files[i][0].endswith(".gleam")]
+        if gle and r.random() < 0.15:
+            # an edit that changes nothing but a module qualifier (`m1.T` -> `m2.T`, same length: no position moves)
+            import re as _re
+            cands = [(i, m) for i in gle for m in _re.finditer(r"\b(m[1-3]|mm)\.(?=[A-Za-z_])", self.files[i][1])]
+            if cands:
+                i, m = r.choice(cands)
+                q = r.choice([x for x in ("m1", "m2", "m3", "mm") if x != m.group(1)])
+                t = self.files[i][1]
+                self.files[i][1] = t[:m.start(1)] + q + t[m.end(1):]
+                return ("none", "none", f"{i}:{hexs(self.files[i][1])}")
         k = r.randrange(10)
         if k < 5 and gle:
             i = r.choice(gle)
